@@ -24,13 +24,17 @@ WITNESS = {'shape': [3], 'vals': [3, 1, 2], 'scale': 0, 'dtype': 'float64', 'adj
            'crit': []}
 
 
-def verdict(case, lax, strict):
+def verdict(case, lax, strict, via=None):
     a = copy.deepcopy(case)
     a['delta'], a['npix'] = lax
     b = copy.deepcopy(case)
     b['delta'], b['npix'] = strict
     da = impl.run_compute(a)
     nlax = len(da)
+    if via is not None:
+        # an intermediate prune with parameters between the two (the final result must not notice), sometimes
+        # leaving a parameter to be inherited (0 = keep the recorded value)
+        da.prune(**dc.prune_kwargs(case, {'delta': via[0], 'npix': via[1]}))
     da.prune(**dc.prune_kwargs(case, {'delta': strict[0], 'npix': strict[1]}))
     db = impl.run_compute(b)
     shape = tuple(case['shape'])
@@ -71,8 +75,16 @@ def explore(ctx):
         c['crit'] = []
         c.pop('crit_single', None)
         lax, strict = rand_pair(rng, c)
+        via = None
+        if rng.random() < 0.3 and strict[1][1] == lax[1][1] and strict[0] == 0 and lax[0] == 0:
+            # min_npix only (where the implementation does satisfy the property): the model has no intermediate
+            # prune, so these cases are decided by the oracle alone
+            den = strict[1][1]
+            via = (0, [rng.choice([0, lax[1][0], rng.randint(lax[1][0], strict[1][0])]), den])
         try:
-            eq, ha, hb, nlax, nstrict = verdict(c, lax, strict)
+            eq, ha, hb, nlax, nstrict = verdict(c, lax, strict, via)
+            if via is not None:
+                ctx.count('with_intermediate_prune')
         except Exception as e:
             ctx.oracle_failure({'case': c, 'lax': lax, 'strict': strict}, ['raised %r' % (e,)], {})
             continue
@@ -80,6 +92,12 @@ def explore(ctx):
         ctx.count('impl_equal=%s' % eq)
         key = (tuple(c['vals']), tuple(c['shape']), str(lax), str(strict)) if (nlax >= 3 and nstrict < nlax) else None
         ctx.case_done(c, key, sample={'case': c, 'lax': lax, 'strict': strict, 'equal': eq} if key else None)
+        if via is not None:
+            if not eq:
+                ctx.oracle_failure({'case': c, 'lax': lax, 'via': via, 'strict': strict},
+                                   ['compute(lax).prune(via).prune(strict) %s differs from compute(strict) %s (min_npix only)' % (ha, hb)],
+                                   {'repaired_ok': False, 'involves_delta': False})
+            continue
         terms.append('(%s, %s, %s, %s, %s, (%s, %s), %s, (%s, %s), %s)' % (
             clist(c['shape']), tie.coq_adj(c), clist(c['vals'], copt), copt(c.get('minv')),
             cz(lax[0]), cz(lax[1][0]), cz(lax[1][1]), cz(strict[0]), cz(strict[1][0]), cz(strict[1][1]), cbool(eq)))
